@@ -322,4 +322,48 @@ PROPS = {
                              "mutants_accepted": 3000, "mutants_rejected": 10000, "ffi_ok": 500}},
         "assumptions": COMMON_ASSUMPTIONS + ["the JSON acceptance model in props/c14.rs is the documented encoding (strings or byte arrays for Bytes, objects or pair arrays for maps)"],
     },
+    "C18": {
+        "rule": ("storm: 24 filters (three regexes incl. a 24-way alternation, wildcard and strict wildcard, SIMD and "
+                 "long-needle and single-byte contains, int/ip/bytes brace lists, $list comparisons, map-each "
+                 "comparisons, mapped calls incl. a memoised extra argument, concat, optional fields) x 16 contexts "
+                 "(2 KiB values whose outcome alternates from one context to the next, pairs of contexts with "
+                 "identical content); the sequential baseline is computed first (twice); then T in {2,4,16,64} threads "
+                 "x 3 sharing modes (one filter + one context shared; shared filter, per-thread context clones; "
+                 "per-thread recompilation) execute every (filter, context) cell in the same order, released by a "
+                 "barrier every 4 cells, for 12 rounds (thorough 400) and every result is compared with the baseline; "
+                 "first-use: fresh processes in which 16 threads hit their first contains compilation (USE_AVX2 "
+                 "latch) and first regex match (pool creation) simultaneously, compared with a warm sequential run. "
+                 "The thorough tier repeats the storm under ThreadSanitizer (std rebuilt and instrumented). "
+                 "distinct_nontrivial = distinct (filter, context) cells + (mode, thread count) pairs + processes."),
+        "quick": [st("rel", timeout=1800)],
+        "thorough": [st("rel", timeout=7200), st("tsan", timeout=7200)],
+        "floors": {"quick": {"evaluations": 800000, "distinct_nontrivial": 400, "children_run": 60}},
+        "on_death": "sanitizer",
+        "assumptions": COMMON_ASSUMPTIONS + ["the sequential execution in the same process is the reference; schedules are whatever the OS produces for barrier-released threads (plus TSan's happens-before analysis in the thorough tier)"],
+        "technique": "runtime monitoring: barrier-released concurrent executions compared with a sequential baseline; fresh-process first-use races; ThreadSanitizer",
+    },
+    "C20": {
+        "rule": ("The exported wirefilter_* functions are called as Rust functions from the rlib beside the Rust API on "
+                 "the same inputs. differential: generated filters (valid; broken by a deleted/inserted character, NUL, "
+                 "0x1a, newline, truncation; with a trailing NUL) through wirefilter_parse_filter vs Scheme::parse: same "
+                 "outcome, error text equal (NUL -> 0x1a), AST JSON equal, C hash = FNV-1a of the JSON, uses/uses_list "
+                 "for EVERY field and 3 non-field names, compile, match on 2 contexts built through the C setters "
+                 "(typed setters for scalars, JSON for the rest) vs the Rust context, context JSON equal; after "
+                 "clear_last_error every failing call must leave exactly the expected message and every succeeding "
+                 "one none; invalid-text: non-UTF-8 filters and names, field names with NUL, duplicate field / list; "
+                 "setters: 12 random typed-setter / JSON-value calls per context (right type, wrong type, unknown "
+                 "field, malformed JSON) + bad whole-context JSON: boolean result as the Rust API decides, message on "
+                 "every failure, stored values keep the declared type; last-error: 4 threads x 10 rounds of failing / "
+                 "succeeding / clearing calls, each thread must only ever see its own message; panics: a function "
+                 "definition that panics on demand in check_param (parse), compile or its body (match) with the "
+                 "catcher enabled must give Status::Panic with the message in last-error, must not unwind, and the "
+                 "next call on the thread must work. distinct_nontrivial = distinct filter texts / sequences."),
+        "quick": [st("rel")],
+        "thorough": [st("rel"), st("dbg"), st("asan", env={"ASAN_OPTIONS": "halt_on_error=1:abort_on_error=1:detect_leaks=1"})],
+        "floors": {"quick": {"evaluations": 150000, "distinct_nontrivial": 3000, "matches_compared": 2500,
+                             "parse_errors_compared": 500, "setter_failures": 8000, "setter_successes": 800,
+                             "panics_reported_as_status": 150}},
+        "on_death": "sanitizer",
+        "assumptions": COMMON_ASSUMPTIONS + ["the C functions are exercised through the rlib (same code as the cdylib, minus the C calling convention boundary); byte values handed to the context are kept alive by the harness as the C contract requires"],
+    },
 }
